@@ -540,11 +540,17 @@ def _realarg(x, fname):
     raise TypeError('must be real number, not %s' % _tname(x))
 
 
-MATH_CALLS = []   # log of (function name, Real argument terms) per path, for harnesses
+def _log_math_call(name, rs):
+    e = E.cur()
+    if not hasattr(e, 'math_calls'):
+        e.math_calls = []
+    e.math_calls.append((name, rs))
 
 
-def _math_stub(name, domain=None, err='ValueError'):
-    """A libm call: uninterpreted value + the documented domain contract (exception outside it)."""
+
+def _math_stub(name, domain=None, err='ValueError', facts=None):
+    """A libm call: uninterpreted value + the documented domain contract (exception outside it) and, where given,
+    elementary sign facts of the result that hold for every double (e.g. sqrt(x) >= 0, sin(x) = 0 only at x = 0)."""
     def model(*a):
         rs = [_realarg(v, name) for v in a]
         if domain is not None:
@@ -557,7 +563,10 @@ def _math_stub(name, domain=None, err='ValueError'):
         if not hasattr(e, 'math_calls'):
             e.math_calls = []
         e.math_calls.append((name, rs))
-        return SymFloat(r=uf_real(name, *rs))
+        v = uf_real(name, *rs)
+        if facts is not None:
+            e.add(facts(v, *rs))
+        return SymFloat(r=v)
     model.__name__ = 'm_math_' + name
     return model
 
@@ -896,12 +905,14 @@ MODELS = {
     divmod: m_divmod, pow: m_pow, format: m_format,
     _math.ceil: m_ceil, _math.floor: m_floor, _math.trunc: m_trunc, _math.isnan: m_isnan, _math.isinf: m_isinf,
     _math.factorial: m_factorial, _math.log: m_log,
-    _math.sqrt: _math_stub('sqrt', lambda x: x >= 0),
-    _math.sin: _math_stub('sin'), _math.cos: _math_stub('cos'), _math.tan: _math_stub('tan'),
+    _math.sqrt: _math_stub('sqrt', lambda x: x >= 0, facts=lambda v, x: z3.And(v >= 0, (v == 0) == (x == 0), z3.Implies(x >= 1, v >= 1), z3.Implies(x >= 1, v <= x),
+                                              v * v <= x * (1 + z3.RealVal(1) / 2 ** 50), v * v >= x * (1 - z3.RealVal(1) / 2 ** 50))),
+    _math.sin: _math_stub('sin', facts=lambda v, x: z3.And(v >= -1, v <= 1, (v == 0) == (x == 0))),
+    _math.cos: _math_stub('cos', facts=lambda v, x: z3.And(v >= -1, v <= 1)), _math.tan: _math_stub('tan'),
     _math.asin: _math_stub('asin', lambda x: z3.And(x >= -1, x <= 1)),
     _math.acos: _math_stub('acos', lambda x: z3.And(x >= -1, x <= 1)),
     _math.atan: _math_stub('atan'), _math.atan2: _math_stub('atan2'),
-    _math.sinh: _math_stub('sinh'), _math.cosh: _math_stub('cosh'), _math.tanh: _math_stub('tanh'),
+    _math.sinh: _math_stub('sinh'), _math.cosh: _math_stub('cosh', facts=lambda v, x: v >= 1), _math.tanh: _math_stub('tanh'),
     _math.asinh: _math_stub('asinh'), _math.acosh: _math_stub('acosh', lambda x: x >= 1),
     _math.atanh: _math_stub('atanh', lambda x: z3.And(x > -1, x < 1)),
     _math.exp: _math_stub('exp'), _math.log10: _math_stub('log10', lambda x: x > 0),
